@@ -10,7 +10,9 @@ K  harness/translators/groups.py regenerates lean/Cherab/Gen/GroupTable.lean; th
    translator's class-body simulation is compared with the property objects Python really built.
 S  direct oracles on the implementation, no model: per (class, attribute) read / scalar / element-wise / wrong-length
    round trips against a lone observer of the member type; per class add / len / index / slice / unique name / parent /
-   children / type filter / observe-once (sample counters of accumulating pipelines).
+   children / type filter / observe-once (sample counters of accumulating pipelines); aliasing histories for every
+   list-valued assignment (the caller keeps the list / ndarray it assigned and appends, reverses, pops, overwrites, clears
+   it; group operations must not change the caller's object; lists handed out by getters are not handles either).
 """
 import importlib
 import inspect
@@ -262,7 +264,10 @@ class Impl:
             # (pipelines, targets) they would not be "scalars"; the model's atoms are unsized objects
             cands = [c for c in BAD_CANDIDATES if not (mattr in ('pipelines', 'targets') and isinstance(c, (str, list)))]
             self._bad[mattr] = [c for c in cands if self.probe(mattr, c)[0] != 'ok']
-        return self.rng.choice(self._bad[mattr]) if self._bad[mattr] else None
+        if not self._bad[mattr]:
+            return None
+        c = self.rng.choice(self._bad[mattr])
+        return list(c) if isinstance(c, list) else c       # fresh list: callers may mutate what they assigned (aliasing streams)
 
     # ---- description of objects for the driver -------------------------------------------------------------------------
     def mk_line(self, o):
@@ -389,6 +394,16 @@ class History:
                         self.t.emit('poke %d %s %d' % (self.U.uid(o), ca, cid), 'ok', None)
                         self.ctx.count('K:member-coupling-resync')
         self.snap('set ' + name)
+        return v
+
+    def mutate_caller(self, v, extra, how, what):
+        """the caller keeps the object it assigned and changes it afterwards; the model holds no reference to it, so it
+        predicts that nothing happens to the group"""
+        if mutate_in_place(v, extra, how):
+            self.ctx.count('K:caller-mutation:' + how)
+            self.snap('caller-side %s of the object assigned to %s' % (how, what))
+            if what in self.im.desc:
+                self.read(what)
 
     def read(self, name):
         im = self.im
@@ -421,6 +436,7 @@ class History:
         for o in objs:
             self.obj(o)
         self.snap('setm')
+        return v
 
     def item(self, key):
         try:
@@ -521,6 +537,47 @@ def prep_observe(g, world, o):
         pass
 
 
+CALLER_MUTATIONS = ('append', 'reverse', 'pop', 'setitem', 'clear')
+
+
+def mutate_in_place(v, extra, how):
+    """change a list / ndarray in place; returns False when the mutation is not applicable"""
+    if isinstance(v, list):
+        if how == 'append':
+            v.append(extra)
+        elif how == 'reverse':
+            if len(v) < 2:
+                return False
+            v.reverse()
+        elif how == 'pop':
+            if not v:
+                return False
+            v.pop()
+        elif how == 'setitem':
+            if not v:
+                return False
+            v[0] = extra
+        elif how == 'clear':
+            if not v:
+                return False
+            v.clear()
+        return True
+    if isinstance(v, np.ndarray) and v.size:
+        if how == 'reverse' and v.size >= 2:
+            v[:] = v[::-1].copy()
+            return True
+        if how == 'setitem':
+            try:
+                v[0] = extra
+            except Exception:  # noqa
+                v[0] = v[-1]
+            return True
+        if how == 'clear':
+            v[:] = v[-1]
+            return True
+    return False
+
+
 def _samples(o):
     p = o.pipelines[0]
     if hasattr(p, 'value'):
@@ -576,6 +633,8 @@ def sweep(ctx, im, t):
                     continue
                 h.assign(name, v, kind)
                 h.read(name)
+                if kind in ('list', 'ndarray', 'len+1') and isinstance(v, (list, np.ndarray)):
+                    h.mutate_caller(v, im.member_value(expected_member(name)), rng.choice(CALLER_MUTATIONS), name)
             # idempotence / last write wins on the implementation
             v = group_value(im, name, 'list', n, rng)
             h.assign(name, v, 'list')
@@ -622,6 +681,13 @@ def membership(ctx, im, t):
         for ml in im.mlist:
             h.read(ml)
             fresh = [make_member(im.member_kind, 'f%d' % i) for i in range(rng.randint(0, 3))]
+            for how in CALLER_MUTATIONS:
+                v = h.setm(ml, list(fresh), 'L')
+                h.mutate_caller(v, make_member(im.member_kind, 'late'), how, ml)
+                h.length()
+                h.item(-1)
+            v = h.setm(ml, fresh, 'L')
+            h.add(make_member(im.member_kind, 'after-setm'))        # must not reach the caller's list either (S checks the list)
             h.setm(ml, fresh, 'L')
             h.read(ml)
             h.setm(ml, list(reversed(fresh)) + ms[:1], 'T')
@@ -671,6 +737,8 @@ def random_histories(ctx, im, t, count, length):
                 h.assign(name, v, kind)
                 if rng.random() < 0.5:
                     h.read(name)
+                if isinstance(v, (list, np.ndarray)) and rng.random() < 0.3:
+                    h.mutate_caller(v, im.member_value(expected_member(name)), rng.choice(CALLER_MUTATIONS), name)
             elif r < 0.6 and im.bcast:
                 h.read(rng.choice(list(im.desc)))
             elif r < 0.68:
@@ -682,7 +750,10 @@ def random_histories(ctx, im, t, count, length):
                 objs = rng.sample(pool, rng.randint(0, 4))
                 if rng.random() < 0.25:
                     objs.insert(rng.randint(0, len(objs)), make_member(rng.choice(im.wrong_kinds)))
-                h.setm(rng.choice(im.mlist), objs, rng.choice(['L', 'L', 'T', '-']))
+                ml = rng.choice(im.mlist)
+                v = h.setm(ml, objs, rng.choice(['L', 'L', 'T', '-']))
+                if isinstance(v, list) and rng.random() < 0.5:
+                    h.mutate_caller(v, make_member(im.member_kind, 'late'), rng.choice(CALLER_MUTATIONS), ml)
                 nxt = len(pool)
             elif r < 0.86:
                 c = rng.random()
@@ -752,11 +823,16 @@ def search(ctx, sc, only=None):
         for attr in props:
             if only and (c['name'], attr) != tuple(only[:2]):
                 continue
-            if attr in MEMBER_LIST_ATTRS or attr == 'slits':
+            if attr == 'slits':
+                continue
+            if attr in MEMBER_LIST_ATTRS:
+                search_alias_members(ctx, im, cls, attr)
                 continue
             for n in (0, 1, 3, 4):
                 if not search_attr(ctx, im, cls, attr, n):
                     break
+            else:
+                search_alias_values(ctx, im, cls, attr)
         if not only or only[1] in ('__getitem__', 'add', 'observe', 'parent'):
             search_membership(ctx, im, cls)
 
@@ -861,6 +937,149 @@ def search_attr(ctx, im, cls, attr, n):
                 ctx.fail(sig + 'wrong-length', 'targets = %d lists for %d pixels: outcome %s' % (m, n, st), dict(rep, clause='wrong-length', length=m, raised=st))
                 return False
     return True
+
+
+def _same_objs(a, b):
+    return len(a) == len(b) and all(x is y for x, y in zip(a, b))
+
+
+def search_alias_members(ctx, im, cls, attr):
+    """aliasing histories for the member-list attributes: the group must not keep (or hand out) a reference through
+    which its membership can be changed behind its back, and group operations must not change the caller's list"""
+    sig = 'C15:%s.%s:' % (im.name, attr)
+    for n in (0, 2, 3):
+        for how in CALLER_MUTATIONS:
+            ctx.case(key=('S', im.name, attr, 'alias', how, n))
+            g = cls()
+            ms = [make_member(im.member_kind, str(i)) for i in range(n)]
+            L = list(ms)
+            if outcome(lambda: setattr(g, attr, L)) != 'ok':
+                return
+            rep = dict(cls=im.name, attr=attr, n=n, mutation=how)
+            if not _same_objs(L, ms):
+                ctx.fail(sig + 'aliases-caller-list', '%s.%s = L changed the caller\'s list L itself' % (im.name, attr), dict(rep, clause='setter-mutates-argument'))
+                return
+            extra = make_member(im.member_kind, 'late')
+            if not mutate_in_place(L, extra, how):
+                continue
+            now = im.members(g)
+            try:
+                read = list(getattr(g, attr))
+            except Exception:  # noqa
+                read = None
+            okk = _same_objs(now, ms) and len(g) == n and read is not None and _same_objs(read, ms) and all(o.parent is g for o in now) \
+                and all(g[i] is ms[i] for i in range(n))
+            if not okk:
+                ctx.fail(sig + 'aliases-caller-list',
+                         '%s(%d members).%s = L; L.%s(...) afterwards changed the group: members %s -> %s, parents %s' % (
+                             im.name, n, attr, how, [im.U.uid(o) for o in ms], [im.U.uid(o) for o in now],
+                             [getattr(o, 'parent', None) is g for o in now]), dict(rep, clause='caller-mutation'))
+                return
+        # group operations leave the caller's list alone
+        g = cls()
+        ms = [make_member(im.member_kind, str(i)) for i in range(n)]
+        L = list(ms)
+        if outcome(lambda: setattr(g, attr, L)) != 'ok':
+            return
+        extra = make_member(im.member_kind, 'late')
+        st = outcome(lambda: im.add(g, extra))
+        if not _same_objs(L, ms):
+            ctx.fail(sig + 'aliases-caller-list', '%s.%s = L; adding a member to the group (%s) changed the caller\'s list L: %d -> %d elements' % (
+                im.name, attr, st, n, len(L)), dict(cls=im.name, attr=attr, n=n, clause='add-mutates-argument'))
+            return
+        other = [make_member(im.member_kind, 'o')]
+        outcome(lambda: setattr(g, attr, other))
+        if not _same_objs(L, ms):
+            ctx.fail(sig + 'aliases-caller-list', '%s.%s = L; a second assignment changed the first list' % (im.name, attr),
+                     dict(cls=im.name, attr=attr, n=n, clause='reassign-mutates-argument'))
+            return
+        # ... and the value handed out by the getter is not a handle on the membership either
+        g = cls()
+        ms = [make_member(im.member_kind, str(i)) for i in range(n)]
+        if outcome(lambda: setattr(g, attr, list(ms))) != 'ok':
+            return
+        r = getattr(g, attr)
+        if isinstance(r, list):
+            r.append(make_member(im.member_kind, 'late'))
+            r.reverse()
+            if not _same_objs(im.members(g), ms):
+                ctx.fail(sig + 'aliases-returned-list', 'changing the list returned by %s.%s changes the group\'s membership' % (im.name, attr),
+                         dict(cls=im.name, attr=attr, n=n, clause='getter-aliases'))
+                return
+
+
+def search_alias_values(ctx, im, cls, attr):
+    """aliasing histories for the per-attribute sequences (incl. names, pipelines, targets): the caller keeps the list /
+    ndarray it assigned and changes it; members must keep what they were given, and the setter must not change the argument"""
+    U = im.U
+    mattr = expected_member(attr)
+    sig = 'C15:%s.%s:' % (im.name, attr)
+    desc = im.desc.get(attr)
+    if not desc or not desc['setter']:
+        return
+    kinds = (desc['setter'].get('test') or {}).get('kinds') or []
+    for n in (2, 3):
+        members = [make_member(im.member_kind, str(i)) for i in range(n)]
+        g = cls()
+        for o in members:
+            im.add(g, o)
+
+        def cur():
+            return [U.canon(mattr, getattr(o, mattr)) for o in members]
+
+        forms = ['list'] + (['ndarray'] if 'ndarray' in kinds else [])
+        for form in forms:
+            for how in CALLER_MUTATIONS + ('inner-append', 'inner-clear'):
+                xs = [im.member_value(mattr) for _ in range(n)]
+                if form == 'ndarray':
+                    if not all(isinstance(x, (int, float, bool)) for x in xs):
+                        break
+                    V = np.array(xs)
+                    keep = V.copy()
+                else:
+                    V = list(xs)
+                    keep = list(xs)
+                inner_keep = [list(x) if isinstance(x, list) else None for x in xs]
+                ctx.case(key=('S', im.name, attr, 'alias', form, how, n))
+                if outcome(lambda: setattr(g, attr, V)) != 'ok':
+                    return
+                rep = dict(cls=im.name, attr=attr, n=n, form=form, mutation=how)
+                unchanged = (np.array_equal(V, keep) if form == 'ndarray' else _same_objs(V, keep)) and \
+                    all(k is None or _same_objs(x, k) for x, k in zip(xs, inner_keep))
+                if not unchanged:
+                    ctx.fail(sig + 'aliases-caller-list', '%s.%s = V changed the caller\'s %s V itself' % (im.name, attr, form), dict(rep, clause='setter-mutates-argument'))
+                    return
+                before = cur()
+                extra = im.member_value(mattr)
+                if how.startswith('inner-'):
+                    if not isinstance(xs[0], list):
+                        continue
+                    if how == 'inner-append':
+                        xs[0].append(extra[0] if isinstance(extra, list) else extra)
+                    else:
+                        xs[0].clear()
+                elif not mutate_in_place(V, extra, how):
+                    continue
+                try:
+                    back = [U.canon(mattr, x) for x in getattr(g, attr)]
+                except Exception as e:  # noqa
+                    back = exc_kind(e)
+                if cur() != before or back != before:
+                    ctx.fail(sig + 'aliases-caller-list', '%s(%d members).%s = V (%s); V %s afterwards changed the members\' values: %s -> %s (read %s)' % (
+                        im.name, n, attr, form, how, before, cur(), back), dict(rep, clause='caller-mutation'))
+                    return
+        if attr == 'targets':            # the shared (flat) form
+            for how in CALLER_MUTATIONS:
+                V = im.member_value(mattr)
+                if outcome(lambda: setattr(g, attr, V)) != 'ok':
+                    return
+                before = cur()
+                if not mutate_in_place(V, im.member_value(mattr)[0], how):
+                    continue
+                if cur() != before:
+                    ctx.fail(sig + 'aliases-caller-list', '%s.targets = flat list V; V %s afterwards changed the pixels\' targets' % (im.name, how),
+                             dict(cls=im.name, attr=attr, n=n, form='flat', mutation=how, clause='caller-mutation'))
+                    return
 
 
 def search_membership(ctx, im, cls):
